@@ -671,3 +671,20 @@ def c01_13(ctx):
     data = f.params[0]
     expect_guards(ctx, f, [('%s is None or (isinstance(%s, list) and %s == [])' % (data, data, data), 'return {}', 'no data'),
                            ('isinstance(%s, dict)' % data, 'return dict_concat(tree_to_table(%s, columns)) if is_tree(columns) else dict(%s)' % (data, data), 'a mapping keeps its keys')], where=f.body)
+
+
+@obligation('C01.14', 'MATCH loop nest', '_dictable:dictable.do',
+            'per-column transforms equal the list-of-records model row by row: do(functions, columns) finishes one column (all functions, in order) before it starts the next, exactly like Dict.do on every row - a function that reads another column must see that column as the model does',
+            axioms=())
+def c01_14(ctx):
+    f = ctx.repo.fn('_dictable:dictable.do')
+    outer = [s for s in f.body if isinstance(s, ast.For)]
+    ctx.count(1, f.where())
+    ok = outer and N(outer[-1].iter) == 'keys' and any(isinstance(x, ast.For) and N(x.iter) == 'as_list(function)' for x in outer[-1].body)
+    if not ok:
+        ctx.fail(f, outer[-1] if outer else f.node, 'dictable.do does not loop `for key in keys: for f in as_list(function)` (columns outside, functions inside): %s' % (U(outer[-1])[:80] if outer else 'no loop'),
+                 witness='d.do([f, g], "a", "b") with g reading column a')
+    g = ctx.repo.fn('_dict:Dict.do')
+    o2 = [s for s in g.body if isinstance(s, ast.For)]
+    if not (o2 and N(o2[-1].iter) == 'keys' and any(isinstance(x, ast.For) and N(x.iter) == 'as_list(function)' for x in o2[-1].body)):
+        ctx.fail(g, o2[-1] if o2 else g.node, 'Dict.do does not loop keys outside, functions inside')
